@@ -301,7 +301,7 @@ def apply_rewrite(text, frm, to):
 LOOP_KW = ("for", "while", "loop")
 
 
-def splice_fn(text, spec=None, ret=None, loops=None, before=None, after=None, rewrites=None, strip_pub=False, log=None, sel="", forloops=None):
+def splice_fn(text, spec=None, ret=None, loops=None, before=None, after=None, rewrites=None, strip_pub=False, log=None, sel="", forloops=None, loopends=None):
     """text = verbatim fn item. Returns (new_text, segments) where segments = list of (kind, label, line_lo, line_hi)
     relative to new_text, for mapping verifier diagnostics back to named clauses."""
     log = log if log is not None else []
@@ -412,7 +412,8 @@ def splice_fn(text, spec=None, ret=None, loops=None, before=None, after=None, re
         edits.append((tend, ")", 0))
     if spec:
         edits.append((ct[b][2], "\n/*@SPEC-BEGIN*/\n" + "\n".join(spec) + "\n/*@SPEC-END*/\n", 0))
-    if loops:
+    if loops or loopends:
+        loops = loops or []
         e = match_brace(ct, b)
         loop_idx = []
         j = b + 1
@@ -427,6 +428,11 @@ def splice_fn(text, spec=None, ret=None, loops=None, before=None, after=None, re
                     loop_idx.append((j, lb))
             j += 1
         fl = dict(forloops or [])
+        for k, ghost in (loopends or []):
+            if k > len(loop_idx):
+                raise Undecided(f"lost anchor: loop #{k} in {sel} (found {len(loop_idx)})")
+            le0 = match_brace(ct, loop_idx[k - 1][1])
+            edits.append((ct[le0][2], "\n/*@GHOST-BEGIN loop-end %d*/\n" % k + "\n".join(ghost) + "\n/*@GHOST-END*/\n", 0))
         for k, inv in loops:
             if k > len(loop_idx):
                 raise Undecided(f"lost anchor: loop #{k} in {sel} (found {len(loop_idx)})")
@@ -482,8 +488,11 @@ def compose(template_text, repo_root, read_file):
             a = {k: v.strip() for k, v in a.items()}
             src = read_file(a["file"])
             try:
-                x, y = locate(src, a["sel"])
-                cond = a["contains"] in src[x:y]
+                if a["sel"] == "file":
+                    cond = a["contains"] in src
+                else:
+                    x, y = locate(src, a["sel"])
+                    cond = a["contains"] in src[x:y]
             except Undecided:
                 cond = False
             stack_if.append(cond)
@@ -504,16 +513,21 @@ def compose(template_text, repo_root, read_file):
             args = {k: v.strip() for k, v in args.items()}
             if "file" not in args or "sel" not in args:
                 raise Undecided(f"bad //@ITEM line: {l}")
-            spec, loops, before, after, rew, forloops = [], [], [], [], [], []
+            spec, loops, before, after, rew, forloops, loopends = [], [], [], [], [], [], []
             cur = None
             i += 1
             while i < len(lines) and not lines[i].strip().startswith("//@END"):
                 s = lines[i].strip()
-                if s.startswith("//@SPEC"):
+                if not s:
+                    if cur is not None: cur.append(lines[i])
+                elif s.startswith("//@SPEC"):
                     cur = spec
-                elif s.startswith("//@LOOP"):
+                elif s.split()[0] == "//@LOOP":
                     cur = []
                     loops.append((int(s.split()[1]), cur))
+                elif s.startswith("//@LOOPEND"):
+                    cur = []
+                    loopends.append((int(s.split()[1]), cur))
                 elif s.startswith("//@FORLOOP"):
                     parts = s.split()
                     forloops.append((int(parts[1]), parts[2]))
@@ -545,7 +559,7 @@ def compose(template_text, repo_root, read_file):
             is_fn = "fn " in args["sel"] and not args["sel"].startswith(("struct", "enum", "const", "static", "type"))
             if is_fn:
                 new_text = splice_fn(item_text, spec=spec, ret=args.get("ret"), loops=loops, before=before, after=after,
-                                     rewrites=rew, strip_pub=(args.get("strip", "pub") == "pub"), log=rewrites_log, sel=args["sel"], forloops=forloops)
+                                     rewrites=rew, strip_pub=(args.get("strip", "pub") == "pub"), log=rewrites_log, sel=args["sel"], forloops=forloops, loopends=loopends)
             else:
                 new_text = item_text
                 for rule, frm, to in rew:
